@@ -2,7 +2,7 @@
 CONSTANTS
   Stmts <- Stmts1
   StmtParams <- Params1
-  ManyPairs <- Pairs1
+  ManyPairs <- Pairs0
   Data <- DataA
   NumberMode = "conforming"
   MaxCalls = 0
